@@ -149,6 +149,7 @@ fn sql_ty(t: Ty) -> &'static str {
         Ty::BigInt => "BIGINT",
         Ty::Bool => "BOOLEAN",
         Ty::Text => "TEXT",
+        Ty::Double => "DOUBLE",
     }
 }
 
@@ -1440,6 +1441,8 @@ impl<'a> RG<'a> {
             }
             Ty::Bool => E::Lit(Val::Bool(self.rng.chance(1, 2))),
             Ty::Text => E::Lit(Val::Text(self.rng.pick(&TEXTS).as_bytes().to_vec())),
+            // (the generators of this engine build no DOUBLE columns)
+            Ty::Double => E::Lit(Val::Null),
         }
     }
 
@@ -1608,6 +1611,7 @@ fn gen_rule_case_once(rng: &mut Rng) -> Option<Case> {
                         Ty::BigInt => 'B',
                         Ty::Bool => 'O',
                         Ty::Text => 'S',
+                        Ty::Double => 'D',
                     };
                     if *nn { ch.to_ascii_lowercase() } else { ch }
                 })
@@ -1630,7 +1634,8 @@ fn gen_rule_case_once(rng: &mut Rng) -> Option<Case> {
                             Ty::Int => vp::VTy::Int,
                             Ty::BigInt => vp::VTy::BigInt,
                             Ty::Bool => vp::VTy::Bool,
-                            Ty::Text => vp::VTy::Text,
+                            // (no DOUBLE columns in rule cases)
+                            Ty::Text | Ty::Double => vp::VTy::Text,
                         },
                         *nn,
                     )
@@ -1783,6 +1788,7 @@ impl<'a> G<'a> {
             }
             Ty::Bool => Val::Bool(self.rng.chance(1, 2)),
             Ty::Text => Val::Text(self.rng.pick(&TEXTS).as_bytes().to_vec()),
+            Ty::Double => Val::Null,
         }
     }
 
